@@ -35,9 +35,9 @@ ALPHABETS = [[1, 2, 3], [4, 8], [1, 4, 16], [2, 3, 5], [4, 4, 8, 16, 32]]
 
 def plan(tier, seed):
     q = tier == 'quick'
-    specs = [{'kind': 'heap-rand', 'n': 1500 if q else 30000} for _ in range(4)]
+    specs = [{'kind': 'heap-rand', 'n': 6000 if q else 60000} for _ in range(4)]
     specs += [{'kind': 'heap-exh', 'L': 5 if q else 7, 'first': f} for f in (1, 2, 3)]
-    specs += [{'kind': 'map', 'n': 70 if q else 1200} for _ in range(8)]
+    specs += [{'kind': 'map', 'n': 250 if q else 2500} for _ in range(8)]
     specs += [{'kind': 'corpus', 'big': not q}]
     return specs
 
